@@ -1,8 +1,10 @@
 /-
-  C11 — what `ValidExt`'s NoS8 hypotheses mean: the builder's result on a merged definition depends on the
-  environment only through (a) which names resolve and (b) the coercion of the default literals. (a) is the same over
-  the definitions alone and over the merged definitions, so NoS8 is EXACTLY "every default literal of the document
-  coerces to the same thing over both" — and finding S8 is a literal for which it does not.
+  C11 — what `ValidExt`'s NoS8 hypotheses mean: the builder's result on a definition depends on the environment
+  only through (a) which names resolve and (b) the coercion of the default literals. (a) is the same over the
+  definitions alone and over the merged definitions. After fix C14-T15 every default is evaluated in the EXTENDED
+  types, and what is left of finding S8 is `BaseDefaults`: a default literal written in a DEFINITION must be a value
+  over the definitions alone (the first pass of `build_schema` still refuses it otherwise). The older, stronger
+  `DefaultsAgree` (the two coercions coincide) implies it.
 -/
 import PyGqlModel.Props.C11_merge
 import PyGqlModel.Props.C11
@@ -74,9 +76,10 @@ theorem resolves_merged (doc : Doc) (n : String) : (Env.of (typeDefs doc)).resol
 /-- all argument / input-field definitions of a type definition -/
 def inputValsOf (d : TypeDef) : List InputValDef := d.inputFields ++ d.fields.flatMap (·.args)
 
-/-- **NoS8**: every default literal of the document (in the merged type definitions and in the directive definitions)
-    coerces to the same thing over the definitions alone — what the builder uses — and over the merged definitions —
-    what the specification says. Finding S8 is a literal for which this fails (`s8_not_defaultsAgree`). -/
+/-- NoS8 BEFORE fix C14-T15 (kept for reference): every default literal of the document (in the merged type definitions
+    and in the directive definitions) coerces to the same thing over the definitions alone — what the builder used —
+    and over the merged definitions — what the specification says. The builder now evaluates every default in the
+    extended types and only needs `BaseDefaults` below. -/
 def DefaultsAgree (doc : Doc) : Prop :=
   (∀ t ∈ merged doc, ∀ a ∈ inputValsOf t, ∀ l, a.default = some l →
       defaultValue (Env.of (typeDefs doc)) l a.type = defaultValue (Env.of (merged doc)) l a.type) ∧
@@ -184,11 +187,152 @@ theorem mapM_ok_of_forall {α β} (f : α → R β) : ∀ (l : List α), (∀ x 
     obtain ⟨bs, hbs⟩ := ih (fun y hy => h y (by simp [hy]))
     exact ⟨b :: bs, by rw [List.mapM_cons, hb, hbs]; rfl⟩
 
+/-! ### success transfers between environments in which the same names resolve -/
+
+theorem all₂_left_ex {α β} (P : α → β → Prop) : ∀ (l : List α) (rs : List β), All₂ P l rs → ∀ x ∈ l, ∃ r, P x r := by
+  intro l rs h
+  induction h with
+  | nil => intro x hx; simp at hx
+  | cons p _ ih =>
+    intro x hx
+    rcases List.mem_cons.mp hx with rfl | hmem
+    · exact ⟨_, p⟩
+    · exact ih x hmem
+
+
+theorem mapM_all_ok {α β} (f : α → R β) (l : List α) (rs : List β) (h : l.mapM f = .ok rs) : ∀ x ∈ l, ∃ r, f x = .ok r :=
+  all₂_left_ex _ _ _ (mapM_forall₂ f l rs h)
+
+theorem buildArgument_ok_transfer (e₁ e₂ : Env) (a : InputValDef) (hr : e₁.resolves a.type.base = e₂.resolves a.type.base)
+    (hd : ∀ l, a.default = some l → ∃ v, defaultValue e₂ l a.type = .ok v) (h : ∃ r, buildArgument e₁ a = .ok r) :
+    ∃ r, buildArgument e₂ a = .ok r := by
+  obtain ⟨r, h⟩ := h
+  unfold buildArgument checkRef at h ⊢
+  rw [← hr]
+  obtain ⟨u, hu, h2⟩ := bind_ok _ _ _ h
+  rw [hu]
+  cases hdef : a.default with
+  | none => exact ⟨_, rfl⟩
+  | some l =>
+    obtain ⟨v, hv⟩ := hd l hdef
+    simp only [hv, bind, Except.bind, pure, Except.pure]
+    exact ⟨_, rfl⟩
+
+theorem buildField_ok_transfer (e₁ e₂ : Env) (f : FieldDef) (hr : ∀ n, e₁.resolves n = e₂.resolves n)
+    (hd : ∀ a ∈ f.args, ∀ l, a.default = some l → ∃ v, defaultValue e₂ l a.type = .ok v) (h : ∃ r, buildField e₁ f = .ok r) :
+    ∃ r, buildField e₂ f = .ok r := by
+  obtain ⟨r, h⟩ := h
+  unfold buildField checkRef at h ⊢
+  rw [← hr]
+  obtain ⟨u, hu, h2⟩ := bind_ok _ _ _ h
+  obtain ⟨as, has, h3⟩ := bind_ok _ _ _ h2
+  obtain ⟨dr, hdr, h4⟩ := bind_ok _ _ _ h3
+  obtain ⟨as', has'⟩ := mapM_ok_of_forall (buildArgument e₂) f.args
+    (fun a ha => buildArgument_ok_transfer e₁ e₂ a (hr _) (hd a ha) (mapM_all_ok _ _ _ has a ha))
+  rw [hu]
+  simp only [has', hdr, bind, Except.bind, pure, Except.pure]
+  exact ⟨_, rfl⟩
+
+theorem buildTypeDef_ok_transfer (e₁ e₂ : Env) (d : TypeDef) (hr : ∀ n, e₁.resolves n = e₂.resolves n)
+    (hd : ∀ a ∈ inputValsOf d, ∀ l, a.default = some l → ∃ v, defaultValue e₂ l a.type = .ok v)
+    (h : ∃ r, buildTypeDef e₁ d = .ok r) : ∃ r, buildTypeDef e₂ d = .ok r := by
+  obtain ⟨r, h⟩ := h
+  have hfields : ∀ fs, d.fields.mapM (buildField e₁) = .ok fs → ∃ fs', d.fields.mapM (buildField e₂) = .ok fs' := by
+    intro fs hfs
+    exact mapM_ok_of_forall _ _ (fun f hf => buildField_ok_transfer e₁ e₂ f hr
+      (fun a ha => hd a (List.mem_append_right _ (List.mem_flatMap.mpr ⟨f, hf, ha⟩))) (mapM_all_ok _ _ _ hfs f hf))
+  unfold buildTypeDef at h ⊢
+  cases hk : d.kind <;> simp only [hk] at h ⊢
+  · exact ⟨_, rfl⟩
+  · obtain ⟨fs, hfs, h1⟩ := bind_ok _ _ _ h
+    obtain ⟨_, hc, _⟩ := bind_ok _ _ _ h1
+    obtain ⟨fs', hfs'⟩ := hfields fs hfs
+    rw [checkNames_congr e₁ e₂ d.interfaces (fun n _ => hr n)] at hc
+    simp only [hfs', hc, bind, Except.bind, pure, Except.pure]
+    exact ⟨_, rfl⟩
+  · obtain ⟨fs, hfs, _⟩ := bind_ok _ _ _ h
+    obtain ⟨fs', hfs'⟩ := hfields fs hfs
+    simp only [hfs', bind, Except.bind, pure, Except.pure]
+    exact ⟨_, rfl⟩
+  · obtain ⟨_, hc, _⟩ := bind_ok _ _ _ h
+    rw [checkNames_congr e₁ e₂ d.members (fun n _ => hr n)] at hc
+    simp only [hc, bind, Except.bind, pure, Except.pure]
+    exact ⟨_, rfl⟩
+  · exact ⟨r, h⟩
+  · obtain ⟨fs, hfs, _⟩ := bind_ok _ _ _ h
+    obtain ⟨fs', hfs'⟩ := mapM_ok_of_forall (buildArgument e₂) d.inputFields
+      (fun a ha => buildArgument_ok_transfer e₁ e₂ a (hr _) (hd a (List.mem_append_left _ ha)) (mapM_all_ok _ _ _ hfs a ha))
+    simp only [hfs', bind, Except.bind, pure, Except.pure]
+    exact ⟨_, rfl⟩
+
+theorem buildDirective_ok_transfer (e₁ e₂ : Env) (d : DirDef) (hr : ∀ n, e₁.resolves n = e₂.resolves n)
+    (hd : ∀ a ∈ d.args, ∀ l, a.default = some l → ∃ v, defaultValue e₂ l a.type = .ok v)
+    (h : ∃ r, buildDirective e₁ d = .ok r) : ∃ r, buildDirective e₂ d = .ok r := by
+  obtain ⟨r, h⟩ := h
+  unfold buildDirective at h ⊢
+  obtain ⟨as, has, _⟩ := bind_ok _ _ _ h
+  obtain ⟨as', has'⟩ := mapM_ok_of_forall (buildArgument e₂) d.args
+    (fun a ha => buildArgument_ok_transfer e₁ e₂ a (hr _) (hd a ha) (mapM_all_ok _ _ _ has a ha))
+  simp only [has', bind, Except.bind, pure, Except.pure]
+  exact ⟨_, rfl⟩
+
+/-- **NoS8 after fix C14-T15**: every default literal written in a DEFINITION of the document (type definitions and
+    directive definitions — not extension blocks) is a value of its type over the definitions alone. A literal for
+    which this fails (`s8_not_baseDefaults`) is still refused by the first pass of `build_schema`. -/
+def BaseDefaults (doc : Doc) : Prop :=
+  (∀ t ∈ typeDefs doc, ∀ a ∈ inputValsOf t, ∀ l, a.default = some l → ∃ v, defaultValue (Env.of (typeDefs doc)) l a.type = .ok v) ∧
+  (∀ d ∈ dirDefs doc, ∀ a ∈ d.args, ∀ l, a.default = some l → ∃ v, defaultValue (Env.of (typeDefs doc)) l a.type = .ok v)
+
+/-- the second thing fix C14-T15 leaves: the fields of an input type are extended while the type itself is in progress,
+    so a default of one of its own fields whose evaluation needs the type again (`needsHidden`) keeps its value over
+    the un-extended types (or is refused, if it has none). `SelfDefaults`: that changes no default of its members. -/
+def SelfDefaults (doc : Doc) : Prop :=
+  ∀ t ∈ typeDefs doc,
+    buildTypeDefX (Env.of (typeDefs doc)) ((Env.of (typeDefs doc)).extended (typeExts doc)) (hideFor t.kind t.name) (mergeDef (typeExts doc) t)
+      = buildTypeDefX (Env.of (typeDefs doc)) ((Env.of (typeDefs doc)).extended (typeExts doc)) none (mergeDef (typeExts doc) t)
+
+/-- only input types are concerned -/
+theorem selfDefaults_of_kind (eB eX : Env) (t : TypeDef) (d : TypeDef) (h : t.kind ≠ .input) :
+    buildTypeDefX eB eX (hideFor t.kind t.name) d = buildTypeDefX eB eX none d := by
+  have : (t.kind == Kind.input) = false := by
+    cases hk : t.kind <;> simp_all
+  simp [hideFor, this]
+
+/-- an input type none of whose fields has a default is not concerned either -/
+theorem selfDefaults_of_noDefaults (eB eX : Env) (h₁ h₂ : Option String) (d : TypeDef) (hk : d.kind = .input)
+    (h : ∀ a ∈ d.inputFields, a.default = none) : buildTypeDefX eB eX h₁ d = buildTypeDefX eB eX h₂ d := by
+  unfold buildTypeDefX
+  simp only [hk]
+  have : d.inputFields.mapM (buildArgumentX eB eX h₁) = d.inputFields.mapM (buildArgumentX eB eX h₂) := by
+    apply mapM_congr_mem
+    intro a ha
+    unfold buildArgumentX
+    rw [h a ha]
+  rw [this]
+
+/-- with `BaseDefaults`, the definitions and the directive definitions build on their own whenever the document
+    declares a schema -/
+theorem base_builds_of_baseDefaults (doc : Doc) (d : SchemaD) (hdecl : Declared doc = some d) (h : BaseDefaults doc) :
+    (∃ bts, (typeDefs doc).mapM (buildTypeDef (Env.of (typeDefs doc))) = .ok bts) ∧
+    (∃ bds, (dirDefs doc).mapM (buildDirective (Env.of (typeDefs doc))) = .ok bds) := by
+  obtain ⟨hts, hds, _⟩ := declared_parts doc d hdecl
+  have hr : ∀ n, (Env.of (merged doc)).resolves n = (Env.of (typeDefs doc)).resolves n := fun n => (resolves_merged doc n).symm
+  constructor
+  · apply mapM_ok_of_forall
+    intro t ht
+    have hq := mapM_all_ok _ _ _ (by rw [← mapM_map_eq]; exact hts :
+      (typeDefs doc).mapM (fun t => buildTypeDef (Env.of (merged doc)) (mergeDef (typeExts doc) t)) = .ok d.types) t ht
+    obtain ⟨r, hr'⟩ := hq
+    exact buildTypeDef_ok_transfer _ _ t hr (h.1 t ht) (build_base_of_merged _ _ t r hr')
+  · apply mapM_ok_of_forall
+    intro dd hdd
+    exact buildDirective_ok_transfer _ _ dd hr (h.2 dd hdd) (mapM_all_ok _ _ _ hds dd hdd)
+
 /-! ### the characterised statement -/
 
 /-- the type-system rules the builder is responsible for, for a document WITH extensions, with NoS8 stated on the
-    default literals (`defaultsAgree`). Compared with `ValidExt`: `baseBuilds` is derived, `mergedSame` /
-    `directivesSame` follow from `defaultsAgree`, and the built definitions `bts` are no longer a parameter. -/
+    default literals (`baseDefaults`). Compared with `ValidExt`: `baseBuilds` / `baseDirectives` are derived, and the
+    built definitions `bts` are no longer a parameter. -/
 structure ValidDoc (doc : Doc) (d : SchemaD) : Prop where
   uniqueTypes : ((typeDefs doc).map (·.name)).Nodup
   uniqueDirectives : ((dirDefs doc).map (·.name)).Nodup
@@ -198,8 +342,10 @@ structure ValidDoc (doc : Doc) (d : SchemaD) : Prop where
   /-- every member of the MERGED definitions builds — in particular every default literal is a valid constant of its
       declared type over the merged definitions — and `d` is the declared content -/
   declares : Declared doc = some d
-  /-- **NoS8** -/
-  defaultsAgree : DefaultsAgree doc
+  /-- **NoS8** (what fix C14-T15 leaves of it) -/
+  baseDefaults : BaseDefaults doc
+  /-- … and no default of an input type's own field needs the type again while it is extended (`ValidExt.selfDefaults`) -/
+  selfDefaults : SelfDefaults doc
   membersUnique : ∀ r ∈ d.types, (r.fields.map (·.name)).Nodup ∧ (r.inputFields.map (·.name)).Nodup ∧ (r.values.map (·.name)).Nodup ∧
       r.members.Nodup ∧ r.interfaces.Nodup
   noThunkCycle : hasThunkCycle (Env.of (typeDefs doc)) (typeDefs doc) = false
@@ -212,43 +358,23 @@ structure ValidDoc (doc : Doc) (d : SchemaD) : Prop where
       (schemaExtensions doc).foldlM (fun r se => addOps (fun n => isDefaultName n || d.types.any (·.name == n)) (.lib .ext) r se.ops) r0
         = .ok ⟨d.query, d.mutation, d.subscription⟩
 
-theorem all₂_left_ex {α β} (P : α → β → Prop) : ∀ (l : List α) (rs : List β), All₂ P l rs → ∀ x ∈ l, ∃ r, P x r := by
-  intro l rs h
-  induction h with
-  | nil => intro x hx; simp at hx
-  | cons p _ ih =>
-    intro x hx
-    rcases List.mem_cons.mp hx with rfl | hmem
-    · exact ⟨_, p⟩
-    · exact ih x hmem
-
 theorem validExt_of_validDoc (doc : Doc) (d : SchemaD) (v : ValidDoc doc d) : ∃ bts, ValidExt doc d bts := by
-  have hms := mergedSame_of_defaultsAgree doc v.defaultsAgree
-  obtain ⟨hts, _, _⟩ := declared_parts doc d v.declares
-  -- every merged definition builds over the builder's environment, hence every definition does
-  have hall : ∀ t ∈ typeDefs doc, ∃ bt, buildTypeDef (Env.of (typeDefs doc)) t = .ok bt := by
-    intro t ht
-    have hq := mapM_forall₂ _ _ _ (by rw [← mapM_map_eq]; exact hts :
-      (typeDefs doc).mapM (fun t => buildTypeDef (Env.of (merged doc)) (mergeDef (typeExts doc) t)) = .ok d.types)
-    obtain ⟨r, hr⟩ := all₂_left_ex _ _ _ hq t ht
-    rw [← hms t ht] at hr
-    exact build_base_of_merged _ _ t r hr
-  obtain ⟨bts, hb⟩ := mapM_ok_of_forall _ _ hall
+  obtain ⟨⟨bts, hb⟩, hbd⟩ := base_builds_of_baseDefaults doc d v.declares v.baseDefaults
   exact ⟨bts,
     { uniqueTypes := v.uniqueTypes, uniqueDirectives := v.uniqueDirectives, oneSchema := v.oneSchema,
       noBuiltinNames := v.noBuiltinNames, extTargets := v.extTargets, declares := v.declares, baseBuilds := hb,
-      mergedSame := hms, directivesSame := directivesSame_of_defaultsAgree doc v.defaultsAgree,
+      baseDirectives := hbd, selfDefaults := fun _ => v.selfDefaults,
       membersUnique := v.membersUnique, noThunkCycle := v.noThunkCycle, noEagerCycleBase := v.noEagerCycleBase bts hb,
       noEagerCycle := v.noEagerCycle, noSpecified := v.noSpecified, rootsOk := v.rootsOk bts hb }⟩
 
 /-- **build_exact** (documents with extensions), with NoS8 as a statement about default literals: if every default
-    literal coerces to the same thing over the definitions alone and over the merged definitions, a valid document
-    builds exactly its declared content. -/
-theorem build_exact_of_defaultsAgree (doc : Doc) (d : SchemaD) (v : ValidDoc doc d) : build doc = .ok d := by
+    literal written in a definition is a value over the definitions alone, a valid document builds exactly its
+    declared content (every default evaluated in the extended types). -/
+theorem build_exact_of_baseDefaults (doc : Doc) (d : SchemaD) (v : ValidDoc doc d) : build doc = .ok d := by
   obtain ⟨bts, hv⟩ := validExt_of_validDoc doc d v
   exact build_exact_partial doc d bts hv
 
-/-! ### finding S8 is exactly a violation of `DefaultsAgree` -/
+/-! ### what is left of finding S8 is exactly a violation of `BaseDefaults` -/
 
 /-- the S8 document of `Props/C11.lean` (`f(a: E = B)`, `enum E { A }`, `extend enum E { B }`) satisfies every other
     rule (`s8_valid`) but NOT `DefaultsAgree`: the literal `B` is no value of `E` over the definitions alone and is
@@ -264,5 +390,73 @@ theorem s8_not_defaultsAgree : ¬ DefaultsAgree s8Doc := by
   simp only [] at this
   rw [this, h2] at h1
   cases h1
+
+/-- …and not `BaseDefaults` either: the literal `B` of the DEFINITION `f(a: E = B)` is no value of `E` over the
+    definitions alone — this is the part of finding S8 that fix C14-T15 does not repair (`build_exact_refuted`). -/
+theorem s8_not_baseDefaults : ¬ BaseDefaults s8Doc := by
+  intro h
+  have hq : (TypeDef.mk .object "Query" none [] [{ name := "f", type := .named "Int", args := [{ name := "a", type := .named "E", default := some (.enum "B") }] }] [] [] [] [])
+      ∈ typeDefs s8Doc := List.Mem.head _
+  obtain ⟨v, hv⟩ := h.1 _ hq { name := "a", type := .named "E", default := some (.enum "B") } (List.Mem.head _) (.enum "B") rfl
+  have h1 : (defaultValue (Env.of (typeDefs s8Doc)) (.enum "B") (.named "E")).toBool = false := by decide
+  simp only [] at hv
+  rw [hv] at h1
+  cases h1
+
+/-! ### the part of S8 that IS repaired: every default is evaluated in the extended types -/
+
+/-- `input I { a: Int }  type Query { f(x: I = {}): Int }  extend input I { b: String = "x" }` -/
+def s8ValueDoc : Doc := [
+  .type { kind := .input, name := "I", inputFields := [{ name := "a", type := .named "Int" }] },
+  .type { kind := .object, name := "Query",
+          fields := [{ name := "f", type := .named "Int", args := [{ name := "x", type := .named "I", default := some (.obj []) }] }] },
+  .ext { kind := .input, name := "I", inputFields := [{ name := "b", type := .named "String", default := some (.str "x") }] }]
+
+def firstArgDefault (s : SchemaD) (ty : String) : Option J :=
+  match s.types.find? (·.name == ty) with
+  | some q => match q.fields.head? with
+    | some f => match f.args.head? with
+      | some a => some a.default
+      | none => none
+    | none => none
+  | none => none
+
+def isObjBX : Option J → Bool
+  | some (.obj [(k, .str v)]) => k == "b" && v == "x"
+  | _ => false
+
+/-- the default `{}` of `f(x: I = {})` is `{b: "x"}` in the built schema (it was `{}` before fix C14-T15), as declared -/
+theorem s8_value_form_repaired :
+    isObjBX ((build s8ValueDoc).toOption.bind (firstArgDefault · "Query")) = true ∧
+    isObjBX ((Declared s8ValueDoc).bind (firstArgDefault · "Query")) = true := by
+  constructor <;> decide
+
+/-- `enum E { A }  type Query { q: Int }  extend enum E { B }  extend type Query { g(m: E = B): Int }` -/
+def s8ExtDoc : Doc := [
+  .type { kind := .enum, name := "E", values := [{ name := "A" }] },
+  .type { kind := .object, name := "Query", fields := [{ name := "q", type := .named "Int" }] },
+  .ext { kind := .enum, name := "E", values := [{ name := "B" }] },
+  .ext { kind := .object, name := "Query",
+         fields := [{ name := "g", type := .named "Int", args := [{ name := "m", type := .named "E", default := some (.enum "B") }] }] }]
+
+/-- a default written in an EXTENSION block may use a member that another extension block adds (the retry of
+    `_default_value`); it was refused before fix C14-T15 -/
+theorem s8_extension_default_accepted : (build s8ExtDoc).toBool = true ∧ (Declared s8ExtDoc).isSome = true := by
+  constructor <;> decide
+
+/-- `input I { a: Int }  type Query { q(i: I): Int }  extend input I { b: String = "x" }  extend input I { c: I = {b: "y", c: null} }` -/
+def s8SelfDoc : Doc := [
+  .type { kind := .input, name := "I", inputFields := [{ name := "a", type := .named "Int" }] },
+  .type { kind := .object, name := "Query", fields := [{ name := "q", type := .named "Int", args := [{ name := "i", type := .named "I" }] }] },
+  .ext { kind := .input, name := "I", inputFields := [{ name := "b", type := .named "String", default := some (.str "x") }] },
+  .ext { kind := .input, name := "I", inputFields := [{ name := "c", type := .named "I", default := some (.obj [("b", .str "y"), ("c", .null)]) }] }]
+
+set_option maxRecDepth 4000 in
+/-- the second residue (`SelfDefaults` excluded): a default of a field of `I` written in an extension of `I`, of type
+    `I` itself, which needs a field that an extension adds — `I` is in progress when the literal is retried, and the
+    document is refused although it declares a schema. Replay: corpus/C11 `S8-extension-default-of-self-typed-input-field`. -/
+theorem s8_self_default_refused :
+    (match build s8SelfDoc with | .error (.lib .sdl) => true | _ => false) = true ∧ (Declared s8SelfDoc).isSome = true := by
+  constructor <;> decide
 
 end PyGql.Props.C11
